@@ -1446,6 +1446,12 @@ def atomic_diffs(a, b, path="", out=None):
         if a[0] in LEAF_TAGS and b[0] in LEAF_TAGS:
             out.append(f"{path}: {_short(a)} instead of {_short(b)}")
             return out
+        # the value passed through jnp.asarray / jnp.array (a plain conversion): whether it matters depends on its type
+        for x, y, word in ((a, b, "is additionally passed through"), (b, a, "is no longer passed through")):
+            if x[0] == "op" and len(x) == 5 and x[1] == "array" and (
+                    (len(x[3]) == 1 and not x[2] and x[3][0] == y) or (not x[3] and len(x[2]) == 1 and x[2][0][1] == y)):
+                out.append(f"~{path}: the value {word} asarray/array(...)")
+                return out
         # len(x) against x.shape[0]: the same number for an array with at least one axis, not defined for a list / a
         # 0-d array respectively -- depends on the type of x: no verdict from it
         for x, y in ((a, b), (b, a)):
